@@ -279,7 +279,26 @@ def lstsq(*a, **k):
 
 # scipy.linalg extras
 def sqrtm(m):
-    raise Unsupported("sqrtm")
+    """opaque principal square root X of a Hermitian matrix; ASSUMED contract: X Hermitian, X @ X = M"""
+    m = _A(m)
+    key = _mat_key(m)
+    n = m.shape[0]
+
+    def val(env, i, j, part):
+        ck = ("sqrtm", key)
+        if ck not in env:
+            import scipy.linalg
+            env[ck] = scipy.linalg.sqrtm(_native_of(m, env))
+        v = env[ck][i, j]
+        return v.real if part == 0 else v.imag
+    out = NP.zeros((n, n), _C)
+    I = Sym.const(1j)
+    for i in range(n):
+        for j in range(n):
+            re = Sym.of_id(T.defined("opaque", ("sqrtm", "re", key, i, j), (lambda env, i=i, j=j: val(env, i, j, 0), ())))
+            im = Sym.of_id(T.defined("opaque", ("sqrtm", "im", key, i, j), (lambda env, i=i, j=j: val(env, i, j, 1), ())))
+            out.a[i, j] = re + I * im
+    return out
 
 
 def expm(m):
